@@ -177,6 +177,9 @@ def conclude(prop, tier, seed, mod, m, jobs, t0, replay, verbose):
     replays = []
     os.makedirs(os.path.join(VERIF, 'replays'), exist_ok=True)
     for n, v in enumerate(unlisted[:20]):
+        if replay:
+            replays.append(replay)       # replaying: do not clobber witness files
+            continue
         path = os.path.join(VERIF, 'replays', f'{prop}-{seed}-{n}.json')
         case = v.get('case') or {}
         job = {'prop': prop, 'tier': tier, 'seed': seed, 'kind': case.get('kind'), 'lo': case.get('idx'),
